@@ -335,6 +335,34 @@ pub fn run(thorough: bool) -> i32 {
             rep.violations.push(v);
         }
     }
+    // (1b) the character classes themselves: every string of length 1 and 2 over ALL 128 ASCII characters, alone and
+    // behind a raw prefix (boundaries of the letter / digit ranges: '@' '[' '`' '{' '/' ':' ...), plus a few non-ASCII heads
+    {
+        let mut full: Vec<String> = vec![];
+        let ascii: Vec<char> = (0u8..128).map(|b| b as char).collect();
+        for &a in &ascii {
+            full.push(a.to_string());
+            full.push(format!("r#{a}"));
+            full.push(format!("a{a}"));
+            full.push(format!("r#a{a}"));
+            full.push(format!("_{a}"));
+            for &b in &ascii {
+                full.push(format!("{a}{b}"));
+            }
+        }
+        for u in ['\u{80}', '\u{aa}', '\u{b5}', 'é', 'ℤ', '\u{200d}', '０'] {
+            full.push(u.to_string());
+            full.push(format!("a{u}"));
+            full.push(format!("r#{u}"));
+        }
+        let n_full = full.len() as u64;
+        let v: Vec<Violation> = full.par_iter().filter_map(|s| check_segments(&[leak(s)])).collect();
+        evals += n_full;
+        distinct_nontrivial += n_full;
+        accepted += full.iter().filter(|s| dfa(s)).count() as u64;
+        rep.set("full_ascii_strings_len_1_2", json!(n_full));
+        rep.extend(v.into_iter().take(50).collect());
+    }
     rep.set("single_segment_strings", json!(evals));
     rep.set("single_segment_accepted_by_model", json!(accepted));
 
